@@ -292,9 +292,10 @@ def traversal_part(ctx, trav, label, maxlen, family, lead, sim, depth, cap, maxs
         ctx.rng.shuffle(rest)
         ctx.notes.append("%s: %d of %d states replayed (seeded sample of the programs longer than 2 statements)" % (label, maxstates, len(states)))
         states = short + rest[: max(0, maxstates - len(short))]
-    if os.environ.get("VERIF_C15_SELFTEST") == "corrupt-spec":   # binding self-test: falsify one expected row
-        victim = next(s for s in states if s["status"] == "ok" and s["rows"] and s["rows"][0]["o"].get("k") == "v")
-        victim["rows"][0]["o"]["label"] += "-corrupted"
+    selftest = os.environ.get("VERIF_C15_SELFTEST")    # binding self-tests (AGENT_GUIDE rule 7a), never set in normal runs
+    if selftest == "corrupt-world":                     # the driver is given another mapping than the spec describes
+        worlds = copy.deepcopy(worlds)
+        worlds[0]["vmap"][0]["label"] += "-corrupted"
     maps = learn(ctx, label, worlds, graphs)
     reqs, skipped = [], 0
     for i, s in enumerate(states):
@@ -309,6 +310,10 @@ def traversal_part(ctx, trav, label, maxlen, family, lead, sim, depth, cap, maxs
                 d["gprog"] = gp
         reqs.append(d)
     outs = run_states(ctx, label, worlds, graphs, reqs)
+    if selftest == "corrupt-real":                      # one recorded field of one real outcome is falsified
+        o = next(outs[i] for i, s in enumerate(states) if s["status"] == "ok" and (outs[i].get("gripper") or {}).get("rows")
+                 and outs[i]["gripper"]["rows"][0].get("k") == "v")
+        o["gripper"]["rows"][0]["label"] += "-corrupted"
     ctx.log("%s: replayed %d states on gripper and kvgraph (%d named a parallel edge: kvgraph only)" % (label, len(states), skipped))
     bad, shared, kvonly = {}, 0, 0
     for i, s in enumerate(states):
@@ -382,7 +387,10 @@ def writes_part(ctx, family, totals):
             ws.append(call)
         reqs.append(dict(i=i, g=c["w"], writes=ws))
     outs = run_states(ctx, "writes", worlds, graphs, reqs)
-    for i, c in enumerate(cases):
+    base_bad = set()
+    order = sorted(range(len(cases)), key=lambda i: len(reqs[i]["writes"]))   # the empty history of every world first
+    for i in order:
+        c = cases[i]
         o = outs[i]
         m = maps[c["w"] - 1]
         rep = dict(world=worlds[c["w"] - 1], case=c, calls=reqs[i]["writes"], outcome=o)
@@ -401,9 +409,15 @@ def writes_part(ctx, family, totals):
             exp = Counter(travcmp.canon_row(canon_out(r, m["spec"])) for r in (rows if isinstance(rows, list) else []))
             got = bag(o.get(key), m["real"])
             if got != exp:
-                ops = ">".join(x["op"] for x in reqs[i]["writes"]) or "no-write"
-                ctx.diverge("gripper %s() listing differs from GraphOf after %s" % (key.upper(), ops if len(reqs[i]["writes"]) else "no write"),
-                            "the exposed %s listing is not the mapped graph" % ("vertex" if key == "v" else "edge"), rep)
+                nocall = not reqs[i]["writes"]
+                if nocall:
+                    base_bad.add((c["w"], key))
+                what = "vertex" if key == "v" else "edge"
+                if nocall or (c["w"], key) in base_bad:
+                    ctx.diverge("gripper %s() listing is not GraphOf" % key.upper(), "the exposed %s listing is not the mapped graph (before any write call)" % what, rep)
+                else:
+                    ctx.diverge("gripper %s() listing changed by write calls" % key.upper(),
+                                "the exposed %s listing is no longer the mapped graph after %s" % (what, ">".join(x["op"] for x in reqs[i]["writes"])), rep)
     totals["writes"] += len(cases)
     ctx.sample(dict(world=worlds[cases[-1]["w"] - 1]["name"], write_history=[x["call"]["op"] for x in cases[-1]["calls"]], expected="all refused, graph unchanged"))
 
